@@ -1,4 +1,5 @@
 import Shuttle.Lemmas.Reverse
+import Shuttle.Lemmas.Opaque
 /-!
 # C11 — every produced path is well formed
 
@@ -71,6 +72,49 @@ theorem WF_ends (p : Path) (h : WF p = true) (hne : p ≠ []) :
       exfalso
       generalize q.foldl wstep .start = σ at h
       cases σ <;> simp [wstep, WSt.accept] at h
+
+/-- **Positions are opaque to the tracer**: renaming every position of an operation sequence by a
+shape-preserving map renames the traced path (or leaves the error as it is).  The model therefore
+covers positions the `Grid` type has no constructor for — filled grids — through any
+shape-preserving encoding of them (the harness's position tokens). -/
+theorem C11_trace_positions_opaque (φ : Grid → Grid) (hφ : ∀ g, (φ g).shape = g.shape)
+    (static : Sel → Bool) (ops : List Op) :
+    runTrace static (ops.map (Op.mapPos φ)) = (runTrace static ops).map (Path.mapPos φ) := by
+  unfold runTrace
+  have h := run_mapPos φ hφ static ops .init
+  have hi : TState.mapPos φ .init = .init := rfl
+  rw [hi] at h
+  rw [h]
+  cases run static .init ops <;> rfl
+
+/-- well-formedness does not depend on what the positions are, only on their shapes and on which
+of them are equal: an injective shape-preserving renaming preserves `WF` in both directions -/
+theorem C11_wf_positions_opaque (φ : Grid → Grid) (hφ : ∀ g, (φ g).shape = g.shape)
+    (hinj : ∀ a b, φ a = φ b → a = b) (p : Path) : WF (Path.mapPos φ p) = WF p := by
+  unfold WF Path.mapPos
+  have h := foldl_wstep_mapPos φ hφ hinj p .start
+  have hs : WSt.mapPos φ .start = .start := rfl
+  rw [hs] at h
+  rw [h, accept_mapPos]
+
+/-- the map the harness's position tokens are built from (a shift in x) is shape preserving and
+injective, so both opacity theorems apply to it -/
+theorem C11_token_map_lawful (k : Rat) :
+    (∀ g : Grid, (g.shift k 0).shape = g.shape) ∧ (∀ a b : Grid, a.shift k 0 = b.shift k 0 → a = b) := by
+  constructor
+  · intro g
+    simp only [Grid.shift, Grid.shape, Grid.numX, Grid.numY]
+    cases g.xInit <;> cases g.yInit <;> rfl
+  · intro a b h
+    obtain ⟨ax, ay, ax0, ay0⟩ := a
+    obtain ⟨bx, by_, bx0, by0⟩ := b
+    simp only [Grid.shift, Grid.mk.injEq] at h ⊢
+    obtain ⟨h1, h2, h3, h4⟩ := h
+    refine ⟨h1, h2, ?_, ?_⟩
+    · cases ax0 <;> cases bx0 <;> simp_all
+      grind
+    · cases ay0 <;> cases by0 <;> simp_all
+      grind
 
 /-- non-vacuity: a traced path with a switch and its reversal are WF; malformed ones are not -/
 example :
